@@ -68,10 +68,10 @@ theorem compiled_frequency {d : Nat} {keep : Bool} {l : Text} {r : Rec} (h : par
   intro h1 hk
   have := parseLine_zeroFreq h
   unfold zeroFreq at this
-  have hw : (r.phrase.length == cliWordLen && !keep) = true := by simp [h1, hk, cliWordLen]
+  have hw : (r.phrase.length == 1 && !keep) = true := by simp [h1, hk]
   rw [if_pos hw] at this
   have := congrArg Rec.freq this
-  simpa [cliWordFreq] using this.symm
+  simpa using this.symm
 
 /-! ## 2. the dump lists the records of the source -/
 
@@ -270,7 +270,7 @@ theorem parse_keep_irrelevant {d : Nat} {k k' : Bool} {l : Text} {r r' : Rec}
       | error e => rw [hf'] at h'; cases h'
       | ok n' =>
         rw [hf] at h; rw [hf'] at h'
-        cases hs : parseSyls ((tokens sylSep l).drop cliSylSkip) with
+        cases hs : parseSyls ((tokens sylSep l).drop 2) with
         | error e => rw [hs] at h; cases h
         | ok syls =>
           rw [hs] at h h'
